@@ -1,7 +1,7 @@
 """py2meth: translate straight-line methods / functions whose statements are library calls into Lean, the library calls getting
-their meaning from a hand-written "world" (`Model/LossWorld.lean`, `Model/DistPublicWorld.lean`).  Stdlib `ast` only; the source is
+their meaning from a hand-written "world" (`Model/LossWorld.lean`, `Model/DistPublicWorld.lean`, `Model/NetWorld.lean`).  Stdlib `ast` only; the source is
 parsed, never imported.  Sibling of `py2loop.py` (same discipline, different subset): every statement of every function listed in
-a typing sheet (`targets_losses.py`, `targets_dist_public.py`) is translated or the function is REFUSED (an error entry in the
+a typing sheet (`targets_losses.py`, `targets_dist_public.py`, `targets_net.py`) is translated or the function is REFUSED (an error entry in the
 generation report = a broken tie).
 
 The translation is TYPED: the sheet gives the Lean type of every parameter / class field and a table of primitives
@@ -12,11 +12,15 @@ types: `dist.log_prob(x, c)` on a point and on a batch are different world funct
   statements   `x = e`, `a, b = e`, `if c: raise E(...)` (a guard), `for pat in it: if c: raise E(...)` (a guard over `List.any`),
                `if/elif/else` joins (`e is None` / `e is not None` on an optional-typed pure expression is a `match` that narrows
                that expression in the branch), nested `def` (closures: captured variables become leading parameters; decorated
-               `@eqx.filter_vmap`; the `_check_shapes` decorator/wrapper pair), `return e` (last), docstrings.
+               `@eqx.filter_vmap`; the `_check_shapes` decorator/wrapper pair), `return e` (last), docstrings; nested tuple targets
+               `(a, _), _ = e` on a product-typed value (`_` discards); `InitPart`: the leading guards of an `__init__` and the values
+               finally assigned to listed attributes (see the class).
   expressions  names, `self.<field>`, generated properties / methods of `self`, int / bool / None / str constants, shape tuples
                (`()`, `(n,)`, `(*s, 2)`), list displays, `{"k": …}[m.__name__]` (a `match` on an enumeration), `a if c else b`,
                `x or None`, f-strings of strings, single-generator comprehensions, `vmap(f)(…)` / `eqx.filter_vmap(f)(…)`,
-               calls of generated functions, and the primitives of the sheet.
+               calls of generated functions, `x[:e]` / `x[e:]`, `None` as a tuple component (type `Unit`), `partial(obj.<generated
+               method>, kw=e, …)` as a function value, and the primitives of the sheet (a keyword spec `("reqlit", text)` must be
+               present literally).
 
 A function that contains a guard or calls a primitive that can raise is emitted in the sheet's monad (`Option` / `Except PyErr`)
 with explicit `bind`s; every other function is emitted pure.
